@@ -155,7 +155,7 @@ func TestC07_LegacyNegative(t *testing.T) {
 		for ci, name := range legacyNames {
 			c := cvOf(name)
 			bases := []baseSpec{
-				{Curve: name, D: legacyKey(c, 3, h.Seed).Bytes(), K: legacyK(c, 3, h.Seed).Bytes(), MsgLen: 3, Seed: 1},
+				{Curve: name, D: legacyKey(c, 3, h.Seed).Bytes(), K: legacyK(c, 3, h.Seed).Bytes(), MsgLen: 1, Seed: 1}, // the shortest ciphertext
 				{Curve: name, D: legacyKey(c, 2, h.Seed).Bytes(), K: legacyK(c, 4, h.Seed).Bytes(), MsgLen: 37, MsgKind: kindMask, Seed: 2},
 			}
 			if !h.Thorough() && ci >= 1 {
@@ -194,6 +194,24 @@ func TestC07_LegacyNegative(t *testing.T) {
 					}
 					for pos := 0; pos < n; pos += 3 {
 						emit(negCase{B: b, L: li, Mut: "delete", Pos: pos})
+					}
+					// the form byte (first byte): every other value; and eight values at
+					// the seams between the parts (coordinate width is (BitSize+7)/8 =
+					// 28, 32, 48, 66: on P-521 and P-224 it differs from BitSize/8 or
+					// leaves excess bits in the top byte)
+					for v := 1; v <= 255; v++ {
+						emit(negCase{B: b, L: li, Mut: "sub", Pos: 0, Val: v, Full: v%32 == 0})
+					}
+					if !l.ASN1 {
+						seams := []int{1, c.BL, c.BL + 1, 2 * c.BL, 2*c.BL + 1, n - 33, n - 32, n - 1}
+						for _, pos := range seams {
+							if pos >= n {
+								continue
+							}
+							for _, v := range []int{1, 2, 0x40, 0x80, 0xff, 0xfe, 0x7f, 0x55} {
+								emit(negCase{B: b, L: li, Mut: "sub", Pos: pos, Val: v})
+							}
+						}
 					}
 				}
 			}
